@@ -200,6 +200,8 @@ pub struct Opts {
     pub seed: u64,
     pub workers: usize,
     pub root: String,
+    /// where evidence/ and replays/ are written (VERIF_OUT; default = root)
+    pub out: String,
     pub scale: f64,
     pub wall_budget_s: f64,
     pub only_scenario: Option<String>,
@@ -602,7 +604,7 @@ pub fn run_check(def: &CheckDef, opts: &Opts) -> i32 {
         let fin = exec_run(prop, &b.scenario, Source::Tape { values: m.values.clone(), entropy: f.entropy }, true, &tolerate);
         let ok = fin.violation.as_ref().map(|v| v.signature(prop) == sig).unwrap_or(false);
         let path = if ok {
-            write_replay(&opts.root, prop, b.scenario.name(), opts.seed, f.idx, f.entropy, &fin, &sig, m.reruns, f.values.len())
+            write_replay(&opts.out, prop, b.scenario.name(), opts.seed, f.idx, f.entropy, &fin, &sig, m.reruns, f.values.len())
         } else {
             // could not reproduce from the tape → harness nondeterminism
             eprintln!("HARNESS-ERROR: violation {} did not reproduce from its tape", sig);
@@ -638,7 +640,7 @@ pub fn run_check(def: &CheckDef, opts: &Opts) -> i32 {
                 let m = minimise(prop, &b.scenario, o.values.clone(), seed, sig, &tol2);
                 let fin = exec_run(prop, &b.scenario, Source::Tape { values: m.values.clone(), entropy: seed }, true, &tol2);
                 if fin.violation.as_ref().map(|v| &v.signature(prop) == sig).unwrap_or(false) {
-                    path = write_replay(&opts.root, prop, b.scenario.name(), opts.seed, *idx, seed, &fin, sig, m.reruns, o.values.len());
+                    path = write_replay(&opts.out, prop, b.scenario.name(), opts.seed, *idx, seed, &fin, sig, m.reruns, o.values.len());
                 }
             }
         }
@@ -732,7 +734,7 @@ pub fn run_check(def: &CheckDef, opts: &Opts) -> i32 {
             "workers": opts.workers,
         }
     });
-    let evdir = format!("{}/evidence", opts.root);
+    let evdir = format!("{}/evidence", opts.out);
     let _ = std::fs::create_dir_all(&evdir);
     if opts.only_scenario.is_none() {
         std::fs::write(format!("{}/{}.json", evdir, prop), serde_json::to_string_pretty(&ev).unwrap()).expect("write evidence");
